@@ -130,6 +130,12 @@ class LunrIndexWriter:
 
     def write(self) -> None:
 
+        documents = self.get_corpus()
+        if not documents:
+            # There is nothing to search for (i.e. everything is hidden), 
+            # and lunr can't build an index from an empty corpus.
+            return
+
         builder = get_default_builder()
 
         # Skip some pipelines for better UX
@@ -147,7 +153,7 @@ class LunrIndexWriter:
         index = lunr(
             ref='qname',
             fields=[{'field_name':name, 'boost':self._BOOSTS[name]} for name in self.fields],
-            documents=self.get_corpus(), 
+            documents=documents, 
             builder=builder)   
         
         serialized_index = json.dumps(index.serialize())
